@@ -15,6 +15,7 @@ SPEC = {
     ],
     "assumptions": [
         "one batchContext per model instance; Funcs are numbers, pendingBatchGroups is keyed by (Func, shard) and each Func has its own MaxSize; the harness runs one or two Funcs with equal shard values",
+        "a shard number of the model stands for one Go value up to Go equality (the map-key equality of funcShard), not for its printed form; the harness uses shard values of different types and structs that print alike and maps Go-distinct values to distinct numbers",
         "a wake-up by the interval or max-duration timer may happen at any time (nothing is assumed about time); Many may return any results of any length, an error, or panic",
         "only the creator's context matters to Invoke (select and ctx.Err() test); a waiter's context is only passed to TemporarilyRelease: theorem waiter_context_ignored, and the harness cancels waiters' contexts too",
         "liveness is proved as enabledness (every group's creator has at most four enabled steps left to done; then every Return is enabled), not as a temporal property of the Go scheduler; Many is assumed to return or panic",
